@@ -204,3 +204,35 @@ Theorem C05_src_run_unrolled : forall (e : env) (nb : Z) (p : Q) (s : nat -> R) 
     /\ sumR (weights nb (Q2R p) m d) = 1%R /\ Forall (fun w => (0 <= w)%R) (weights nb (Q2R p) m d).
 Proof. exact src_run_unrolled. Qed.
 Print Assumptions C05_src_run_unrolled.
+
+(** Whole-run consequences of the two clauses above, for every burn-in length nb >= 0, power and sequence.
+    (i) The memory-less phase leaves no trace: two runs whose per-iteration statistics agree from iteration nb+1 on are handed
+    the same statistics at every maximisation from iteration nb+1 on, whatever was sampled before. *)
+Theorem C05_burn_in_leaves_no_trace : forall (nb : Z) (p : R), (0 <= nb)%Z -> forall (s s' : nat -> R),
+  (forall j, (nb + 1 <= Z.of_nat j)%Z -> s j = s' j) ->
+  forall k, (nb + 1 <= Z.of_nat k)%Z -> stat nb p s k = stat nb p s' k.
+Proof. exact stat_forgets_burn_in. Qed.
+Print Assumptions C05_burn_in_leaves_no_trace.
+
+(** (ii) The statistics in force never leave the interval spanned by the per-iteration statistics (no overshoot), ... *)
+Theorem C05_stat_in_hull : forall (nb : Z) (p : R), (0 <= nb)%Z -> forall (s : nat -> R) (a b : R), (0 < p)%R ->
+  (forall j, (1 <= j)%nat -> (a <= s j <= b)%R) ->
+  forall k, (1 <= k)%nat -> (a <= stat nb p s k <= b)%R.
+Proof. exact stat_in_hull. Qed.
+Print Assumptions C05_stat_in_hull.
+
+(** ... (iii) and a constant sequence is reproduced exactly at every iteration, whatever the power. *)
+Theorem C05_stat_constant : forall (nb : Z) (p : R), (0 <= nb)%Z -> forall (s : nat -> R) (c : R),
+  (forall j, (1 <= j)%nat -> s j = c) -> forall k, (1 <= k)%nat -> stat nb p s k = c.
+Proof. exact stat_constant. Qed.
+Print Assumptions C05_stat_constant.
+
+(** Non-vacuity of (i): burn-in 2, the sequences 7,9,3,4,4,... and 0,0,3,4,4,... differ during the memory-less phase only,
+    and the hypothesis is met. *)
+Theorem C05_burn_in_leaves_no_trace_example :
+  let s  := fun j : nat => match j with 1%nat => 7%R | 2%nat => 9%R | 3%nat => 3%R | _ => 4%R end in
+  let s' := fun j : nat => match j with 1%nat => 0%R | 2%nat => 0%R | 3%nat => 3%R | _ => 4%R end in
+  (forall j, (2 + 1 <= Z.of_nat j)%Z -> s j = s' j) /\ s 1%nat <> s' 1%nat /\ stat 2 1 s 1 <> stat 2 1 s' 1
+  /\ forall k, (2 + 1 <= Z.of_nat k)%Z -> stat 2 1 s k = stat 2 1 s' k.
+Proof. exact no_trace_example. Qed.
+Print Assumptions C05_burn_in_leaves_no_trace_example.
